@@ -249,6 +249,13 @@ func (e *env) runCase(sc *scenario, m *mutation) {
 	if m != nil && m.foreign() {
 		peerKey = e.otherKey.PublicKey()
 		tags = append(tags, "transport:foreign-peer-key")
+		if strings.HasSuffix(m.kind, "own-price-table") {
+			// the peer also issued the price table the renter uses: same prices, signed with the
+			// peer's key instead of the contract host's
+			saved := e.prices
+			e.prices.Signature = e.otherKey.SignHash(e.prices.SigHash())
+			defer func() { e.prices = saved }()
+		}
 	}
 	tr := rhpc.Scripted(peerKey, func(conn net.Conn) {
 		defer close(done)
